@@ -29,6 +29,47 @@ func init() {
 	}
 }
 
+// registrySnapshot is the registry as it was when the epoch-start block of the epoch in flight was built: a
+// competing block for the same epoch is built from the same state with a different selection of operations.
+type registrySnapshot struct {
+	lists    *epochLists
+	rating   map[string]uint32
+	unstaked map[string]bool
+	off      map[string]offEntry
+	nextID   int
+	pending  []int
+}
+
+func (w *world) takeSnapshot(lists *epochLists) *registrySnapshot {
+	sn := &registrySnapshot{lists: lists, rating: map[string]uint32{}, unstaked: map[string]bool{}, off: map[string]offEntry{},
+		nextID: w.nextID, pending: append([]int(nil), w.pending...)}
+	for k, v := range w.rating {
+		sn.rating[k] = v
+	}
+	for k, v := range w.unstaked {
+		sn.unstaked[k] = v
+	}
+	for k, v := range w.off {
+		sn.off[k] = *v
+	}
+	return sn
+}
+
+func (w *world) restoreSnapshot(sn *registrySnapshot) {
+	w.rating, w.unstaked, w.off = map[string]uint32{}, map[string]bool{}, map[string]*offEntry{}
+	for k, v := range sn.rating {
+		w.rating[k] = v
+	}
+	for k, v := range sn.unstaked {
+		w.unstaked[k] = v
+	}
+	for k, v := range sn.off {
+		e := v
+		w.off[k] = &e
+	}
+	w.nextID = sn.nextID
+}
+
 // offEntry is a registered key that is currently in no eligible/waiting list.
 type offEntry struct {
 	status string // "left", "jailed", "inactive"
@@ -87,6 +128,7 @@ type world struct {
 	infos      [][]*state.ShardValidatorInfo // one slice per peer miniblock, canonical order
 	noise      bool
 	cand       int // index of the current epoch-start candidate of the epoch in flight (0 = first block seen)
+	snap       *registrySnapshot
 	stuck      bool
 	epochCalls []epochCall
 	lastGood   *shuffleCall
@@ -356,9 +398,17 @@ func hashStr(s string) uint64 {
 	return h.Sum64()
 }
 
+// holdsCurrent: the node holds the epoch in flight as computed from the candidate that becomes final.
+func (w *world) holdsCurrent(n *node) bool {
+	if !n.alive || !w.knows(n, w.epoch) {
+		return false
+	}
+	return w.epoch == 0 || n.lastAction >= w.epoch || (n.lastPrepared == w.epoch && n.preparedCand == w.cand)
+}
+
 func (w *world) refNode() *node {
 	for _, n := range w.nodes {
-		if n.alive && w.knows(n, w.epoch) {
+		if w.holdsCurrent(n) {
 			return n
 		}
 	}
@@ -645,7 +695,10 @@ func (w *world) deliverPrepare(n *node, seed int64, fault string, faultAt int) {
 			c.Probe("save-failed-in-prepare")
 		}
 	}
-	if w.knows(n, w.epoch) {
+	if !computed && n.lastPrepared == w.epoch && n.preparedCand != w.cand {
+		c.Probe("competing-candidate-refused-node-keeps-abandoned-one")
+	}
+	if computed && w.knows(n, w.epoch) {
 		if n.computedEpoch == w.epoch {
 			c.Probe("prepare-delivered-again")
 		}
@@ -726,10 +779,9 @@ func (w *world) restart(n *node, useOldKey bool, fault string, faultAt int) {
 		n.lastPrepared = n.lastAction
 	}
 	if n.lastPrepared == w.epoch && w.hdr != nil && n.lastAction < w.epoch {
-		// which epoch-start candidate does the loaded state hold? (the state key is the candidate's PrevRandSeed)
-		if bytes.Equal(key, w.hdr.PrevRandSeed) {
-			n.preparedCand = w.cand
-		} else {
+		// the loaded state is the last successful save under the key, i.e. the candidate of the node's last Prepare;
+		// when that save failed an older candidate with the same PrevRandSeed may be what was loaded
+		if n.putFailed[string(key)] {
 			n.preparedCand = -1
 		}
 	}
@@ -838,6 +890,7 @@ func (w *world) step(i int) {
 			return
 		}
 		lists, _ := w.listsOf(ref, w.epoch)
+		w.snap = w.takeSnapshot(lists)
 		w.infos = w.buildInfos(lists)
 		c.CurStep = i
 		w.epoch++
@@ -860,11 +913,18 @@ func (w *world) step(i int) {
 		}
 		c.Eventf("epoch %d starts: rand=%x infos=%d fix=%v balanced=%v", w.epoch, rnd, nInfos, w.epoch >= w.fixEpoch, w.epoch >= w.balanceEpoch)
 	case "candidate":
-		// a competing epoch-start block for the SAME new epoch (another PrevRandSeed, same validator info, built on
-		// the same previous epoch); from now on this is the candidate that will become final. Impossible once a
-		// node has committed the epoch.
+		// a competing epoch-start block for the SAME new epoch, built on the same previous epoch; from now on this
+		// is the candidate that will become final. Impossible once a node has committed the epoch. It differs from
+		// the current candidate in its PrevRandSeed (B[0] given: another parent block) and/or in its validator info
+		// (I[0]=1: the registry operations queued since the epoch step are added to the selection the block applies
+		// to the SAME previous-epoch state; same parent => same PrevRandSeed).
 		rnd := st.Bytes(0)
-		if w.stuck || w.epoch == 0 || w.hdr == nil || len(rnd) == 0 || bytes.Equal(rnd, w.hdr.PrevRandSeed) {
+		if w.stuck || w.epoch == 0 || w.hdr == nil || w.snap == nil {
+			return
+		}
+		newRand := len(rnd) > 0 && !bytes.Equal(rnd, w.hdr.PrevRandSeed)
+		newInfo := st.Int(0, 0) == 1 && len(w.pending) > 0
+		if !newRand && !newInfo {
 			return
 		}
 		for _, n := range w.nodes {
@@ -874,14 +934,31 @@ func (w *world) step(i int) {
 		}
 		w.cand++
 		hdr := *w.hdr
-		hdr.PrevRandSeed = rnd
+		if newRand {
+			hdr.PrevRandSeed = rnd
+		}
 		hdr.Round++
 		w.hdr = &hdr
+		nInfos := 0
+		if newInfo {
+			extra := append([]int(nil), w.pending...)
+			w.restoreSnapshot(w.snap)
+			w.pending = append(append([]int(nil), w.snap.pending...), extra...)
+			w.infos = w.buildInfos(w.snap.lists)
+			c.CurStep = i
+			c.Probe("competing-candidate-with-other-validator-info")
+			if !newRand {
+				c.Probe("competing-candidate-same-randomness-other-validator-info")
+			}
+		}
+		for _, mb := range w.infos {
+			nInfos += len(mb)
+		}
 		for _, n := range w.nodes {
 			n.prepCount = 0
 		}
 		c.Probe("competing-epoch-start-candidate")
-		c.Eventf("epoch %d: competing candidate %d rand=%x", w.epoch, w.cand, rnd)
+		c.Eventf("epoch %d: competing candidate %d rand=%x newrand=%v newinfo=%v infos=%d", w.epoch, w.cand, hdr.PrevRandSeed, newRand, newInfo, nInfos)
 	case "prepare":
 		n := w.nodeOf(st)
 		if w.stuck || w.epoch == 0 || n == nil || !n.alive || n.lastAction >= w.epoch {
